@@ -1098,8 +1098,43 @@ struct Runner {
       if (!w->type->snapshot(w->obj, got, err)) viol(VK_ELEM, P(2) | G.baseProps, "moved-from vector: " + err);
       else { w->model = got; if (stats && !got.empty()) stats->probe("moved_from_not_empty"); }
     }
-    // ---- C05 flag maintenance (the statement's own rule)
     VecObs post = t.observe(s.obj);
+    // ---- C18
+    if (!G.viol.set() && res.outcome == OUT_RETURNED) {
+      if (io.kind == V_APPEND_LOOP && res.appended) {
+        double n = (double)res.appended;
+        unsigned bound = 2u * (unsigned)std::ceil(std::log2(n)) + 4u;
+        uint64_t rbound = 8ull * (res.appended + sz0) + 64ull;  // O(n) amortised: a vector that already holds sz0 elements moves them too
+        if (res.growEvents > bound) {
+          char m[200];
+          snprintf(m, sizeof m, "appending %zu elements one by one (start size %zu, capacity %zu) caused %u reallocations, bound 2*ceil(log2 n)+4 = %u",
+                   res.appended, sz0, pre.capacity, res.growEvents, bound);
+          G.violate(VK_GROWTH, P(18), m);
+        } else if (res.relocs > rbound || (t.elemHooks && !t.elemTR && res.bits > rbound + res.appended)) {
+          char m[200];
+          snprintf(m, sizeof m, "appending %zu elements relocated %llu elements (move constructions %u), linear bound %llu", res.appended,
+                   (unsigned long long)res.relocs, res.bits, (unsigned long long)rbound);
+          G.violate(VK_GROWTH, P(18), m);
+        }
+        unsigned nb = res.appended < 8 ? 0 : res.appended < 64 ? 1 : res.appended < 512 ? 2 : res.appended < 2048 ? 3 : 4;
+        cell(18, s.typeIdx, cls, nb, res.growEvents < 63 ? res.growEvents : 63);
+        if (stats) stats->probe("append_loop_elems", res.appended);
+      } else if (io.kind == V_RESERVE && t.flavour != FL_FIXED) {
+        if (G.opAllocCalls + G.opReallocCalls > 1) G.violate(VK_GROWTH, P(18), "reserve(n) needed more than one allocator request");
+        cell(18, s.typeIdx, cls, 5, io.count > pre.capacity);
+      } else if (io.kind == V_SHRINK && t.flavour != FL_FIXED) {
+        size_t want = (t.flavour == FL_SMALL && post.size <= t.N) ? t.N : post.size;
+        if (post.capacity != want) {
+          char m[160];
+          snprintf(m, sizeof m, "after shrink_to_fit() capacity() is %zu, expected %zu (size %zu, N=%u)", post.capacity, want, post.size, t.N);
+          G.violate(VK_GROWTH, P(18) | P(7), m);
+        } else if (t.flavour == FL_SMALL && post.size <= t.N && t.N && !post.inside) {
+          G.violate(VK_GROWTH, P(18) | P(5), "after shrink_to_fit() with size <= N the elements are not back in the inline storage");
+        }
+        cell(18, s.typeIdx, cls, 6, 0);
+      }
+    }
+    // ---- C05 flag maintenance (the statement's own rule)
     if (!G.viol.set()) {
       bool threw = res.outcome != OUT_RETURNED;
       if (!threw) {
@@ -1207,41 +1242,6 @@ struct Runner {
       }
       if (!G.viol.set() && !threw && io.kind == V_SWAP2 && srcHeap && dstHeap && w->type->allocDomain == t.allocDomain && stats)
         stats->probe("swap2_heap_x_heap_same_alloc");
-    }
-    // ---- C18
-    if (!G.viol.set() && res.outcome == OUT_RETURNED) {
-      if (io.kind == V_APPEND_LOOP && res.appended) {
-        double n = (double)res.appended;
-        unsigned bound = 2u * (unsigned)std::ceil(std::log2(n)) + 4u;
-        uint64_t rbound = 8ull * (res.appended + sz0) + 64ull;  // O(n) amortised: a vector that already holds sz0 elements moves them too
-        if (res.growEvents > bound) {
-          char m[200];
-          snprintf(m, sizeof m, "appending %zu elements one by one (start size %zu, capacity %zu) caused %u reallocations, bound 2*ceil(log2 n)+4 = %u",
-                   res.appended, sz0, pre.capacity, res.growEvents, bound);
-          G.violate(VK_GROWTH, P(18), m);
-        } else if (res.relocs > rbound || (t.elemHooks && !t.elemTR && res.bits > rbound + res.appended)) {
-          char m[200];
-          snprintf(m, sizeof m, "appending %zu elements relocated %llu elements (move constructions %u), linear bound %llu", res.appended,
-                   (unsigned long long)res.relocs, res.bits, (unsigned long long)rbound);
-          G.violate(VK_GROWTH, P(18), m);
-        }
-        unsigned nb = res.appended < 8 ? 0 : res.appended < 64 ? 1 : res.appended < 512 ? 2 : res.appended < 2048 ? 3 : 4;
-        cell(18, s.typeIdx, cls, nb, res.growEvents < 63 ? res.growEvents : 63);
-        if (stats) stats->probe("append_loop_elems", res.appended);
-      } else if (io.kind == V_RESERVE && t.flavour != FL_FIXED) {
-        if (G.opAllocCalls + G.opReallocCalls > 1) G.violate(VK_GROWTH, P(18), "reserve(n) needed more than one allocator request");
-        cell(18, s.typeIdx, cls, 5, io.count > pre.capacity);
-      } else if (io.kind == V_SHRINK && t.flavour != FL_FIXED) {
-        size_t want = (t.flavour == FL_SMALL && post.size <= t.N) ? t.N : post.size;
-        if (post.capacity != want) {
-          char m[160];
-          snprintf(m, sizeof m, "after shrink_to_fit() capacity() is %zu, expected %zu (size %zu, N=%u)", post.capacity, want, post.size, t.N);
-          G.violate(VK_GROWTH, P(18) | P(7), m);
-        } else if (t.flavour == FL_SMALL && post.size <= t.N && t.N && !post.inside) {
-          G.violate(VK_GROWTH, P(18) | P(5), "after shrink_to_fit() with size <= N the elements are not back in the inline storage");
-        }
-        cell(18, s.typeIdx, cls, 6, 0);
-      }
     }
     // ---- conservation (C02), canaries
     if (!G.viol.set() && fam.types[0]->elemHooks) {
